@@ -200,3 +200,217 @@ Proof.
   intros m W. unfold encode_NI. rewrite (ni_clamp_wf m W). eexists. split; [reflexivity|].
   apply NI_roundtrip. exact W.
 Qed.
+
+(** * What the sticky reader returns, whatever the input *)
+
+Lemma rd_u8_out : forall s v s', rd_u8 s = (v, s') -> v < 256 /\ (r_err s' = false -> r_err s = false).
+Proof.
+  intros s v s' H. unfold rd_u8 in H. destruct (r_err s) eqn:E.
+  - injection H as <- <-. split; [lia|]. intros X. congruence.
+  - destruct (r_rest s) as [|b t]; injection H as <- <-.
+    + split; [lia|]. cbn. discriminate.
+    + split; [apply b2n_lt|reflexivity].
+Qed.
+
+Lemma rd_take_out : forall n s a s', rd_take n s = (a, s') ->
+  (lenN a = n \/ a = []) /\ (r_err s' = false -> r_err s = false /\ lenN a = n).
+Proof.
+  intros n s a s' H. unfold rd_take in H. destruct (r_err s) eqn:E.
+  - injection H as <- <-. split; [right; reflexivity|]. intros X. congruence.
+  - destruct (takeN n (r_rest s)) as [[x r]|] eqn:T; injection H as <- <-.
+    + apply takeN_some in T. destruct T as [_ L]. split; [left; exact L|]. intros _. split; [reflexivity|exact L].
+    + split; [right; reflexivity|]. cbn. discriminate.
+Qed.
+
+Lemma rd_str_out : forall s x s', rd_str s = (x, s') -> lenN x < 256 /\ (r_err s' = false -> r_err s = false).
+Proof.
+  intros s x s' H. unfold rd_str in H. destruct (rd_u8 s) as [n s1] eqn:U.
+  apply rd_u8_out in U. destruct U as [Ln Un].
+  destruct (r_err s1) eqn:E.
+  - injection H as <- <-. split; [cbn; lia|]. intros X. congruence.
+  - apply rd_take_out in H. destruct H as [[L|L] K].
+    + split; [lia|]. intros X. apply Un. reflexivity.
+    + subst x. split; [cbn; lia|]. intros X. apply Un. reflexivity.
+Qed.
+
+Lemma rd_u64_out : forall s v s', rd_u64 s = (v, s') -> v < 2 ^ 64 /\ (r_err s' = false -> r_err s = false).
+Proof.
+  intros s v s' H. unfold rd_u64 in H. destruct (rd_take 8 s) as [a s1] eqn:T. injection H as <- <-.
+  apply rd_take_out in T. destruct T as [[L|L] K].
+  - split; [|intros X; apply K; exact X]. pose proof (be_get_bound a) as B. rewrite <- lenN_length, L in B. exact B.
+  - subst a. split; [cbn; lia|intros X; apply K; exact X].
+Qed.
+
+Lemma rd_bool_out : forall s v s', rd_bool s = (v, s') -> (r_err s' = false -> r_err s = false).
+Proof.
+  intros s v s' H. unfold rd_bool in H. destruct (rd_u8 s) as [n s1] eqn:U. injection H as _ <-.
+  exact (proj2 (rd_u8_out _ _ _ U)).
+Qed.
+
+Lemma rd_opt_bool_out : forall s v s', rd_opt_bool s = (v, s') -> (r_err s' = false -> r_err s = false).
+Proof.
+  intros s v s' H. unfold rd_opt_bool in H. destruct (0 <? rd_rem s).
+  - exact (rd_bool_out _ _ _ H).
+  - injection H as _ <-. auto.
+Qed.
+
+Lemma rd_strs_out : forall n s l s', rd_strs n s = (l, s') ->
+  forallb (wfb str8) l = true /\ (length l <= n)%nat /\ (r_err s' = false -> r_err s = false).
+Proof.
+  induction n as [|n IH]; intros s l s' H; cbn [rd_strs] in H.
+  - injection H as <- <-. repeat split; auto.
+  - destruct (r_err s) eqn:E.
+    + injection H as <- <-. repeat split; [cbn; lia|congruence].
+    + destruct (rd_str s) as [x s1] eqn:S. destruct (rd_strs n s1) as [l' s2] eqn:R. injection H as <- <-.
+      apply rd_str_out in S. destruct S as [Lx _]. apply IH in R. destruct R as (F & Ln & _).
+      repeat split; [|cbn [length]; lia].
+      cbn [forallb]. rewrite F, andb_true_r. cbn [wfb str8 lpbytes]. apply N.ltb_lt. exact Lx.
+Qed.
+
+Lemma peer_wf_intro : forall pid tr rtt d, lenN pid = 16 -> lenN tr < 256 -> rtt < 2 ^ 64 ->
+  wfb Peer_c (pid, (tr, (rtt, d))) = true.
+Proof.
+  intros pid tr rtt d Lp Lt Lr. cbn [wfb Peer_c pairc fst snd id16 fixed str8 lpbytes u64 uint boolc].
+  apply andb_true_intro. split; [apply N.eqb_eq; exact Lp|].
+  apply andb_true_intro. split; [apply N.ltb_lt; exact Lt|].
+  apply andb_true_intro. split; [apply N.ltb_lt; exact Lr|reflexivity].
+Qed.
+
+Lemma rd_peers_out : forall n s l s', rd_peers n s = (l, s') ->
+  (length l <= n)%nat /\ (r_err s' = false -> r_err s = false /\ forallb (wfb Peer_c) l = true).
+Proof.
+  induction n as [|n IH]; intros s l s' H; cbn [rd_peers] in H.
+  - injection H as <- <-. split; [cbn; lia|]. auto.
+  - destruct (rd_rem s <? 16).
+    { injection H as <- <-. split; [cbn; lia|]. auto. }
+    destruct (rd_take 16 s) as [pid s1] eqn:T.
+    destruct (rd_str s1) as [tr s2] eqn:S.
+    destruct (rd_rem s2 <? 9).
+    { injection H as <- <-. split; [cbn; lia|]. intros X.
+      apply rd_str_out in S. destruct S as [_ S]. apply rd_take_out in T. destruct T as [_ T].
+      split; [apply T, S, X|reflexivity]. }
+    destruct (rd_u64 s2) as [rtt s3] eqn:U.
+    destruct (rd_bool s3) as [d s4] eqn:B.
+    destruct (rd_peers n s4) as [l' s5] eqn:R. injection H as <- <-.
+    apply IH in R. destruct R as [Ln R]. split; [cbn [length]; lia|]. intros X.
+    destruct (R X) as [E4 F]. pose proof (rd_bool_out _ _ _ B E4) as E3.
+    apply rd_u64_out in U. destruct U as [Lr U]. pose proof (U E3) as E2.
+    apply rd_str_out in S. destruct S as [Lt S]. pose proof (S E2) as E1.
+    apply rd_take_out in T. destruct T as [_ T]. destruct (T E1) as [E0 Lp].
+    split; [exact E0|]. cbn [forallb]. rewrite F, andb_true_r.
+    apply peer_wf_intro; assumption.
+Qed.
+
+Lemma rd_fls_out : forall n s l s', rd_fls n s = (l, s') ->
+  (length l <= n)%nat /\ forallb (wfb FL_c) l = true.
+Proof.
+  induction n as [|n IH]; intros s l s' H; cbn [rd_fls] in H.
+  - injection H as <- <-. split; [cbn; lia|reflexivity].
+  - destruct (rd_rem s =? 0). { injection H as <- <-. split; [cbn; lia|reflexivity]. }
+    destruct (rd_str s) as [k s1] eqn:K.
+    destruct (rd_rem s1 <? 1). { injection H as <- <-. split; [cbn; lia|reflexivity]. }
+    destruct (rd_str s1) as [a s2] eqn:A.
+    destruct (r_err s2). { injection H as <- <-. split; [cbn; lia|reflexivity]. }
+    destruct (rd_fls n s2) as [l' s3] eqn:R. injection H as <- <-.
+    apply IH in R. destruct R as [Ln F]. apply rd_str_out in K, A. destruct K as [Lk _], A as [La _].
+    split; [cbn [length]; lia|]. cbn [forallb]. rewrite F, andb_true_r.
+    cbn [wfb FL_c pairc fst snd str8 lpbytes]. change (256 ^ N.of_nat 1) with 256.
+    apply andb_true_intro. split; apply N.ltb_lt; assumption.
+Qed.
+
+Lemma rd_shells_out : forall n s l s', rd_shells n s = (l, s') ->
+  (length l <= n)%nat /\ forallb (wfb str8) l = true.
+Proof.
+  induction n as [|n IH]; intros s l s' H; cbn [rd_shells] in H.
+  - injection H as <- <-. split; [cbn; lia|reflexivity].
+  - destruct (rd_rem s =? 0). { injection H as <- <-. split; [cbn; lia|reflexivity]. }
+    destruct (rd_str s) as [x s1] eqn:K.
+    destruct (r_err s1). { injection H as <- <-. split; [cbn; lia|reflexivity]. }
+    destruct (rd_shells n s1) as [l' s2] eqn:R. injection H as <- <-.
+    apply IH in R. destruct R as [Ln F]. apply rd_str_out in K. destruct K as [Lk _].
+    split; [cbn [length]; lia|]. cbn [forallb]. rewrite F, andb_true_r.
+    cbn [wfb str8 lpbytes]. change (256 ^ N.of_nat 1) with 256. apply N.ltb_lt. exact Lk.
+Qed.
+
+Lemma str8_intro : forall x, lenN x < 256 -> wfb str8 x = true.
+Proof. intros x H. cbn [wfb str8 lpbytes]. apply N.ltb_lt. exact H. Qed.
+
+Lemma listc1_intro : forall {A} (c : codec A) l, lenN l < 256 -> forallb (wfb c) l = true -> wfb (listc 1 c) l = true.
+Proof. intros A c l H F. cbn [wfb listc]. rewrite F, andb_true_r. apply N.ltb_lt. exact H. Qed.
+
+Lemma len_le_N : forall {A} (l : list A) (n : N), (length l <= N.to_nat n)%nat -> lenN l <= n.
+Proof. intros. rewrite lenN_length. lia. Qed.
+
+(** whatever DecodeNodeInfo returns, from any bytes, is within the wire limits *)
+Lemma decode_NI_wf : forall b m, decode_NI b = Some m -> wf_NI m = true.
+Proof.
+  intros b m H. unfold decode_NI in H.
+  destruct (lenN b <? 5 + key_size); [discriminate|].
+  destruct (rd_str (mkRd b false)) as [name s1] eqn:S1.
+  destruct (rd_str s1) as [host s2] eqn:S2.
+  destruct (rd_str s2) as [os s3] eqn:S3.
+  destruct (rd_str s3) as [arch s4] eqn:S4.
+  destruct (rd_str s4) as [ver s5] eqn:S5.
+  destruct (rd_u64 s5) as [start s6] eqn:S6.
+  destruct (r_err s6); [discriminate|].
+  destruct (rd_u8 s6) as [ipn s7] eqn:S7.
+  destruct (rd_strs (N.to_nat ipn) s7) as [ips s8] eqn:S8.
+  destruct (r_err s8); [discriminate|].
+  destruct (rd_u8 s8) as [pn s9] eqn:S9.
+  destruct (rd_peers (N.to_nat (N.min pn max_peers)) s9) as [peers s10] eqn:S10.
+  destruct (rd_take key_size s10) as [key s11] eqn:S11.
+  destruct (r_err s11) eqn:E11; [discriminate|].
+  destruct (rd_opt_bool s11) as [udp s12] eqn:S12.
+  destruct (if 0 <? rd_rem s12 then let '(n, s1) := rd_u8 s12 in rd_fls (N.to_nat (N.min n max_fwd_listeners)) s1 else ([], s12))
+    as [fls s13] eqn:S13.
+  destruct (if 0 <? rd_rem s13 then let '(n, s1) := rd_u8 s13 in rd_shells (N.to_nat (N.min n max_shells)) s1 else ([], s13))
+    as [shells s14] eqn:S14.
+  destruct (rd_opt_bool s14) as [ft s15] eqn:S15.
+  destruct (rd_opt_bool s15) as [she s16] eqn:S16.
+  destruct (rd_opt_bool s16) as [icmp s17] eqn:S17.
+  injection H as <-.
+  apply rd_str_out in S1, S2, S3, S4, S5. destruct S1 as [L1 _], S2 as [L2 _], S3 as [L3 _], S4 as [L4 _], S5 as [L5 _].
+  apply rd_u64_out in S6. destruct S6 as [L6 _].
+  apply rd_u8_out in S7. destruct S7 as [L7 _].
+  apply rd_strs_out in S8. destruct S8 as (F8 & C8 & _).
+  apply rd_peers_out in S10. destruct S10 as [C10 K10].
+  apply rd_take_out in S11. destruct S11 as [_ K11]. destruct (K11 E11) as [E10 Lk]. destruct (K10 E10) as [_ F10].
+  assert (Ffl : (length fls <= 20)%nat /\ forallb (wfb FL_c) fls = true).
+  { destruct (0 <? rd_rem s12).
+    - destruct (rd_u8 s12) as [n sx] eqn:U. apply rd_fls_out in S13. destruct S13 as [C F]. split; [|exact F].
+      unfold max_fwd_listeners in C. lia.
+    - injection S13 as <- _. split; [cbn; lia|reflexivity]. }
+  assert (Fsh : (length shells <= 10)%nat /\ forallb (wfb str8) shells = true).
+  { destruct (0 <? rd_rem s13).
+    - destruct (rd_u8 s13) as [n sx] eqn:U. apply rd_shells_out in S14. destruct S14 as [C F]. split; [|exact F].
+      unfold max_shells in C. lia.
+    - injection S14 as <- _. split; [cbn; lia|reflexivity]. }
+  destruct Ffl as [Cfl Ffl]. destruct Fsh as [Csh Fsh].
+  assert (Lips : lenN ips < 256) by (rewrite lenN_length; lia).
+  assert (Lpeers : lenN peers <= 50) by (rewrite lenN_length; unfold max_peers in C10; lia).
+  assert (Lfls : lenN fls <= 20) by (rewrite lenN_length; lia).
+  assert (Lsh : lenN shells <= 10) by (rewrite lenN_length; lia).
+  unfold wf_NI.
+  apply andb_true_intro; split; [|apply N.leb_le; exact Lsh].
+  apply andb_true_intro; split; [|apply N.leb_le; exact Lfls].
+  apply andb_true_intro; split; [|apply N.leb_le; exact Lpeers].
+  cbn [wfb NI_c pairc fst snd].
+  apply andb_true_intro; split; [apply str8_intro; exact L1|].
+  apply andb_true_intro; split; [apply str8_intro; exact L2|].
+  apply andb_true_intro; split; [apply str8_intro; exact L3|].
+  apply andb_true_intro; split; [apply str8_intro; exact L4|].
+  apply andb_true_intro; split; [apply str8_intro; exact L5|].
+  apply andb_true_intro; split; [cbn [wfb u64 uint]; apply N.ltb_lt; exact L6|].
+  apply andb_true_intro; split; [apply listc1_intro; [exact Lips|exact F8]|].
+  apply andb_true_intro; split; [apply listc1_intro; [lia|exact F10]|].
+  apply andb_true_intro; split; [cbn [wfb key32 fixed]; apply N.eqb_eq; exact Lk|].
+  apply andb_true_intro; split; [reflexivity|].
+  apply andb_true_intro; split; [apply listc1_intro; [lia|exact Ffl]|].
+  apply andb_true_intro; split; [apply listc1_intro; [lia|exact Fsh]|].
+  reflexivity.
+Qed.
+
+Lemma NI_stable : stable encode_NI decode_NI wf_NI.
+Proof.
+  intros b m D. pose proof (decode_NI_wf b m D) as W. split; [exact W|]. exact (NI_lossless m W).
+Qed.
